@@ -144,6 +144,18 @@ def c11_pipeline(rep, tier, seed, jit=False, scale=1.0, synthetic=True):
                 if marks != [len(ws) - 1]:
                     malformed.append((sc, w, len(ws), marks))
                     break
+        # "the workers' final statistics" (C11 / C17): what a worker announces with its completion marker is what its
+        # own solver reports once it has finished
+        for sc in scs:
+            st = streams[sc["id"]]
+            for w, ws in enumerate(st["streams"]):
+                if st.get("actual") and ws and ws[-1][1] is None and ws[-1][2] != st["actual"][w]:
+                    for pfx in ("C11", "C17"):
+                        cl = pfx + ":completion-marker-does-not-carry-the-worker's-final-statistics"
+                        pre_failures.append((cl, {"clause": cl, "kind": "streams", "mode": sc["mode"], "scenario": sc, "worker": w,
+                                                  "announced": ws[-1][2], "final": st["actual"][w], "gets": [],
+                                                  "streams": [[m[1] for m in x] for x in st["streams"]], "var": sc["var"], "sols": []}))
+                    break
         for sc, w, n, marks in malformed:
             scs.remove(sc)
             pre_failures.append(("C11:worker-stream-is-not-solutions-then-one-completion-marker",
